@@ -26,7 +26,7 @@ func (g *FnGen) intrinsicSorts(com *ssa.CallCommon, heapSorts map[string]bool) b
 	if !com.IsInvoke() {
 		return false
 	}
-	if com.Method.Name() == "MustUnmarshalBinaryBare" {
+	if com.Method.Name() == "MustUnmarshalBinaryBare" || com.Method.Name() == "UnmarshalBinaryBare" {
 		if pt := ifaceOperandType(com.Args[1]); pt != nil {
 			g.cellSorts(pt.Underlying().(interface{ Elem() types.Type }).Elem(), heapSorts)
 			return true
